@@ -476,9 +476,9 @@ def parse_rvalue(s):
     m = re.match(r'^((?:copy|move|const) .*?) as (.+?) \((\w+)(\(.*\))?\)$', s)
     if m:
         return ('cast', m.group(3), m.group(2).strip(), parse_operand(m.group(1)))
-    m = re.match(r'^\[(.*); (\d+)\]$', s)
+    m = re.match(r'^\[(.*); (\d+|[A-Z]\w*)\]$', s)
     if m and (m.group(1).startswith(('copy ', 'move ', 'const '))):
-        return ('repeat', parse_operand(m.group(1)), int(m.group(2)))
+        return ('repeat', parse_operand(m.group(1)), int(m.group(2)) if m.group(2).isdigit() else m.group(2))
     if s.startswith('[') and s.endswith(']'):
         parts = split_top(s[1:-1])
         if all(p.startswith(('copy ', 'move ', 'const ')) for p in parts):
@@ -720,6 +720,8 @@ class Machine:
             return True
         if s == '()':
             return []
+        if s.startswith('ZeroSized: '):
+            return Opaque('zst', s[11:])          # closures without captures, unit-like values
         m = re.match(r"^(-?\d+)_(\w+)$", s)
         if m and m.group(2) in BITS:
             return I(int(m.group(1)), m.group(2))
@@ -995,7 +997,10 @@ class Machine:
                 return v
             raise Unsupported('cast kind ' + kind)
         if k == 'repeat':
-            return Arr(rv[2], self.operand(fr, rv[1]))
+            n = rv[2]
+            if not isinstance(n, int):
+                n = self.const(fr, n).v          # array length given by a const generic
+            return Arr(n, self.operand(fr, rv[1]))
         if k == 'array':
             vals = [self.operand(fr, o) for o in rv[1]]
             return Arr(len(vals), None, dict(enumerate(vals)))
